@@ -55,7 +55,8 @@
                                      world run (`Placeholder.runWorld` on the merge), '!' = panic
 
     place.world <impl> <mode> <call> {' | ' <call>}
-        impl  := ('F' | 'R' | 'G') <reset> <atEntry> <atCore>    each '0' | '1'; e.g. F010 = Impl.go
+        impl  := ('F' | 'R' | 'G') <reset> <atEntry> <atCore>    each '0' | '1'; e.g. F011 = Impl.go (the
+                 code of today), F010 = Impl.entryOnly (before 4b5c841); the harness probes the real code
         mode  := 'seq' | 'par' | 'il:' <rid> {'.' <rid>}     (`par`: free-running goroutines; the model
                  runs the calls in sequence — every merge gives the same answer when allocation is fresh)
         call  := <parent> {' > ' <run>}          one call of HandleRequest and the runs of the core
@@ -66,6 +67,9 @@
       and every handler access.
       → ok <vals> {' | ' <vals>}                 what call i observes in the world run under <impl>
 
+    place.impl go                → ok <impl>              the parameters of `Placeholder.Impl.go` (what the model
+                                                          says the code of today is; the harness answers with
+                                                          what it probed on the real code)
     place.obs <request>          → ok obs=<obs>           what the handlers of the request alone read
     place.resolve <ph> <reqId>   → ok <val> | err         `GetIdOrPlaceholder` (0 = "")
 -/
@@ -260,6 +264,11 @@ private def parseImpl (s : String) : Option Impl :=
     pure { alloc := alloc, reset := ← bit r, atEntry := ← bit e, atCore := ← bit c }
   | _ => none
 
+private def renderImpl (i : Impl) : String :=
+  let bit (b : Bool) : String := if b then "1" else "0"
+  (match i.alloc with | .fresh => "F" | .reuse => "R" | .global => "G")
+    ++ bit i.reset ++ bit i.atEntry ++ bit i.atCore
+
 private def parseParent (s : String) : Option Parent :=
   if s.startsWith "c" then (s.drop 1).toString.toNat?.map .conn
   else if s.startsWith "i" then (s.drop 1).toString.toNat?.map .inside
@@ -328,6 +337,7 @@ def handleBatch (cmd arg : String) : Option String :=
     match parseImpl impl, (rest.splitOn " | ").mapM parseCall with
     | some impl, some calls => (placeWorld impl mode calls).getD "bad-op"
     | _, _ => "bad-op"
+  | "place.impl" => some ("ok " ++ renderImpl Impl.go)
   | "place.resolve" => some <|
     match arg.splitOn " " with
     | [a, b] =>
